@@ -22,7 +22,13 @@ for t in missing:
     mod, name = t.split('::', 1)
     ok = False
     if mod.startswith('tests.'):
+        # first in the context of its module (the flaky drawing test passes there), then alone
         path = mod.replace('.', '/') + '.py::' + name
+        mpath = mod.replace('.', '/') + '.py'
+        r = subprocess.run(f"cd {REPO} && /venv/bin/python -m pytest -q -p no:cacheprovider '{mpath}'", shell=True,
+                           env=env, stdout=subprocess.DEVNULL, stderr=subprocess.DEVNULL)
+        if r.returncode == 0:
+            continue
         for _ in range(4):
             r = subprocess.run(f"cd {REPO} && /venv/bin/python -m pytest -q -p no:cacheprovider '{path}'", shell=True,
                                env=env, stdout=subprocess.DEVNULL, stderr=subprocess.DEVNULL)
